@@ -83,7 +83,7 @@ def replay_family(ctx, fam, behs, env=None, race=False, exhaustive_depth=None, b
         if n_bad < 2:
             raise vlib.Broken("driver died on behaviour %d but not when it is replayed alone (rc=%s): %s" % (
                 start + idx, rc, out[-1500:]))
-        ro = {"family": fam, "kind": "crash", "behaviour": bad, "tail": last[-1500:], "key": "crash",
+        ro = {"family": fam, "kind": "crash", "env": env or {}, "behaviour": bad, "tail": last[-1500:], "key": "crash",
               "op": "crash", "world": "?", "ops": " ".join(s["op"] for s in bad)}
         if classify:
             classify(ro)
@@ -120,7 +120,7 @@ def replay_family(ctx, fam, behs, env=None, race=False, exhaustive_depth=None, b
         rep = [m for m in mm2 if m["world"] == mm["world"] and m["step"] <= mm["step"]]
         if not rep:
             raise vlib.Broken("mismatch did not reproduce in isolation: %s" % json.dumps(mm))
-        ro = {"family": fam, "kind": "mismatch", "world": mm["world"], "step": mm["step"], "op": mm["op"],
+        ro = {"family": fam, "kind": "mismatch", "env": env or {}, "world": mm["world"], "step": mm["step"], "op": mm["op"],
               "key": mm["key"], "want": mm["want"], "got": mm["got"], "behaviour": beh[: mm["step"] + 1],
               "ops": " ".join(s["op"] for s in beh[: mm["step"] + 1])}
         if classify:
@@ -128,3 +128,16 @@ def replay_family(ctx, fam, behs, env=None, race=False, exhaustive_depth=None, b
         ctx.violation("after %s (step %d of %s) on %s: %s required=%r real=%r" % (
             mm["op"], mm["step"], [s["op"] for s in beh], mm["world"], mm["key"], mm["want"], mm["got"]), ro)
     return summ
+
+
+def replay_file(ctx, path):
+    """bin/check <id> --replay <path>: re-run the stored counterexample. Behaviour replays are re-executed alone;
+    for record-type replays (trace validation) the stored record is shown and the quick check is re-run."""
+    d = json.load(open(path))
+    ro = d.get("replay", {})
+    print("replaying %s: %s" % (path, d.get("what", "")[:300]))
+    fam = ro.get("family")
+    if "behaviour" in ro and fam:
+        replay_family(ctx, fam, [ro["behaviour"]], env=ro.get("env") or None)
+        return True
+    return False
